@@ -311,6 +311,12 @@ func runC04(r *rep.R) {
 				cfg3.FlipLen = 0
 				cfg3.Horizon = 3
 				histExploreWith(r, "C04", cfg3, 2, &idx, c04Judge)
+				if t == opGetDeviceID || t == opPowerReading {
+					// every bit flip / truncation followed by every second deviation
+					cfg4 := cfg
+					cfg4.Horizon = 2
+					histExploreWith(r, "C04", cfg4, 2, &idx, c04Judge)
+				}
 			}
 		}
 	}
